@@ -87,6 +87,17 @@ Theorem C24_whole_diagram_refuted_by_object_near :
   boxes_overlap_b (near_box cex_near p) (mkbox 113 0 800 400) = true.
 Proof. exact thm_object_near_refuted. Qed.
 
+(* With the repair of coq/C24/fix.patch boundingBox treats those shapes like all others, i.e. it is the
+   pinned function applied to [map plain main]; then the statement holds without the guard. *)
+Theorem C24_repaired_code_whole_diagram :
+  forall main pts ns n p margin tol,
+    has_shape_b (map plain main) = true -> forallb label_dims_ok_b ns = true ->
+    margin <= pad -> 0 <= tol ->
+    In (n, p) (combine ns (layout (map plain main) pts ns)) ->
+    side_ok_b margin tol (full_box main pts []) (n_key n) (near_box n p) = true /\
+    center_ok_b tol (full_box main pts []) (n_key n) (near_box n p) = true.
+Proof. exact thm_fixed_whole_diagram. Qed.
+
 (* non-vacuity: a one-shape diagram with a labelled top-left near satisfies the hypotheses *)
 Example C24_hyps_satisfiable :
   let main := [GMain (mkbox 0 0 50 60) true None 10 20] in
@@ -115,3 +126,4 @@ Print Assumptions C24_near_clear_of_every_route_point.
 Print Assumptions C24_later_nears_clear_of_center_nears.
 Print Assumptions C24_near_outside_whole_diagram_guarded.
 Print Assumptions C24_whole_diagram_refuted_by_object_near.
+Print Assumptions C24_repaired_code_whole_diagram.
